@@ -250,10 +250,12 @@ func init() {
 		Assumptions: append([]string{"signature model: only signatures produced by Sign on the path verify; certificates for different keys differ in issuer or serial unless made by CertSameID", "SHA-256 model with functional consistency and collision resistance between equal-length inputs"}, commonAssumptions...),
 	}
 	registry["C04"] = &Property{
-		Quick:    []HarnessSpec{{Name: "VC04_VerifySound", Params: map[string]int{"vsymC04Signers": 2}, MaxDecisions: 2000, TimeoutSec: 600, NeedReach: []string{"honest-verifies", "accepted", "rejected", "end"}}},
-		Bounds: []string{"unit level: the parsed SignedData is arbitrary — 1..2 signer entries with symbolic issuer, serial, content type, 32-byte message digest and 256-byte signature; encapsulated content present or absent with symbolic bytes; the honest key has produced one real signature (SignPKCS7) that the adversary may reuse",
+		Quick:    []HarnessSpec{{Name: "VC04_VerifySound", Params: map[string]int{"vsymC04Signers": 2}, MaxDecisions: 2000, TimeoutSec: 600, NeedReach: []string{"honest-verifies", "accepted", "rejected", "end"}},
+			{Name: "VC04_AttributeBytes", MaxDecisions: 2000, NeedReach: []string{"end"}}},
+		Bounds: []string{"attribute bytes: the three standard attributes signed in any of the 6 orders and placed in the blob (built by the reference encoder, content attached) in any of the 6 orders: Verify is true iff the orders agree",
+			"unit level: the parsed SignedData is arbitrary — 1..2 signer entries with symbolic issuer, serial, content type, 32-byte message digest and 256-byte signature; encapsulated content present or absent with symbolic bytes; the honest key has produced one real signature (SignPKCS7) that the adversary may reuse",
 			"decided: Verify(cert) = true only if some entry names the certificate, its signature is valid under the certificate's key over that entry's attribute SET, and (content encapsulated) its message digest equals SHA-256 of the content; completeness: the honest blob parses and verifies"},
-		Outside: []string{"byte-level edits of real blobs (covered for the Authenticode blob by C02)", "attribute bytes that differ from their canonical re-encoding (the fix 4b3bc85 makes verification use the original bytes; a DER-level harness over symbolic attribute encodings is not built)", "EFIVariableAuthentication2.Verify entry point (thin wrapper)"},
+		Outside: []string{"byte-level edits of real blobs (covered for the Authenticode blob by C02)", "attribute edits other than permutation (duplication, removal: they change the signed bytes in the same way)", "EFIVariableAuthentication2.Verify entry point (thin wrapper)"},
 		Assumptions: append([]string{"signature and hash models as in C02"}, commonAssumptions...),
 	}
 	registry["C13"] = &Property{
